@@ -407,8 +407,9 @@ def _drive(gens, drv, deadline=None):
 
     rep = Report()
     waiting, lines = [], []
-    for g in gens:
-        if deadline is not None and time.time() > deadline:
+    for gi, g in enumerate(gens):
+        # the first two schemas of every chunk always run (a check that explores nothing is worthless)
+        if gi >= 2 and deadline is not None and time.time() > deadline:
             # degrade gracefully on an overloaded machine instead of running into the runner's hard limit
             rep.stats["schemas_skipped_time_budget"] = rep.stats.get("schemas_skipped_time_budget", 0) + 1
             g.close()
@@ -860,7 +861,8 @@ def explore(ctx) -> Report:
     k = fw.WORKERS if ctx.tier == "quick" else fw.WORKERS * 4
     chunks = [cases[i::k] for i in range(k) if cases[i::k]]
     drv = DRIVER if ctx.driver else None
-    deadline = (ctx.t0 or time.time()) + (110 if ctx.tier == "quick" else 760)
+    # measured from the start of the exploration (build + audit time is not charged to it)
+    deadline = time.time() + (150 if ctx.tier == "quick" else 760)
     reps = fw.pmap(_work, [(c, names, depth, option_sets, drv, n_adhoc, ctx.seed, deadline) for c in chunks])
     rep = Report()
     for r in reps:
